@@ -12,7 +12,9 @@ RULE = ("corpus strings x random language subsets (1-5 of the first 80 languages
         "first successful memoised single-language result in priority (or given) order, its locale must belong to the selection "
         "(or to DEFAULT_LANGUAGES when the selection fails), and DEFAULT_LANGUAGES must not change a result the selection "
         "produces; the same law for locales= selections (regional locales of distinct languages, both ordering rules); autodetected result re-parsed with languages=[reported]; complete walk of every valid (language, region) of "
-        "language_locale_dict: languages=[L], region=R must equal locales=[L-R] on a numeric and a named date; mixed-validity "
+        "language_locale_dict: languages=[L], region=R must equal locales=[L-R] on a numeric and a named date and, for the 20 regional locales that list relative phrases of their own, on "
+        "strings instantiated from those, asked before and after the plain language was used with the same (locale-unique) settings: "
+        "equal answers required; mixed-validity "
         "region lists (region valid for only some of the languages); every language with 2-4 regions that are not its own (incl. regions "
         "of locales that only share its prefix): nothing may be reported. non-trivial distinct = distinct (string, selection, "
         "settings) whose result was non-None, plus every (language, region) pair.")
